@@ -34,27 +34,31 @@ def trim1 (s : List Char) : List Char :=
 
 def pow10 (e : Int) : Rat := if 0 ≤ e then ((10 ^ e.toNat : Nat) : Rat) else 1 / ((10 ^ (-e).toNat : Nat) : Rat)
 
+/-! the pieces of a number token, left to right -/
+
+/-- the token without its sign -/
+def unsign (s : List Char) : List Char :=
+  if s.head? = some '-' ∨ s.head? = some '+' then s.tail else s
+def intPart (s : List Char) : List Char := (unsign s).takeWhile isDig
+def afterInt (s : List Char) : List Char := (unsign s).dropWhile isDig
+def hasDot (s : List Char) : Bool := (afterInt s).head? = some '.'
+def fracPart (s : List Char) : List Char := if hasDot s then (afterInt s).tail.takeWhile isDig else []
+def afterFrac (s : List Char) : List Char := if hasDot s then (afterInt s).tail.dropWhile isDig else afterInt s
+def hasExp (s : List Char) : Bool := (afterFrac s).head? = some 'e' || (afterFrac s).head? = some 'E'
+/-- behind the exponent letter and its sign -/
+def expBody (s : List Char) : List Char := unsign (afterFrac s).tail
+def expNeg (s : List Char) : Bool := (afterFrac s).tail.head? = some '-'
+def expPart (s : List Char) : List Char := if hasExp s then (expBody s).takeWhile isDig else []
+def afterExp (s : List Char) : List Char := if hasExp s then (expBody s).dropWhile isDig else afterFrac s
+
 /-- `[+-] digits [. digits] [e [+-] digits]`, the whole token -/
 def strictNumber (s : List Char) : Option Rat :=
-  let neg := s.head? = some '-'
-  let s1 := if s.head? = some '-' ∨ s.head? = some '+' then s.tail else s
-  let ip := s1.takeWhile isDig
-  let r1 := s1.dropWhile isDig
-  let hasDot := r1.head? = some '.'
-  let fp := if hasDot then r1.tail.takeWhile isDig else []
-  let r2 := if hasDot then r1.tail.dropWhile isDig else r1
-  let hasExp := r2.head? = some 'e' ∨ r2.head? = some 'E'
-  let r3 := if hasExp then r2.tail else r2
-  let eneg := hasExp ∧ r3.head? = some '-'
-  let r4 := if hasExp ∧ (r3.head? = some '-' ∨ r3.head? = some '+') then r3.tail else r3
-  let ed := if hasExp then r4.takeWhile isDig else []
-  let r5 := if hasExp then r4.dropWhile isDig else r4
-  if ip.isEmpty ∨ (hasDot ∧ fp.isEmpty) ∨ (hasExp ∧ ed.isEmpty) ∨ !r5.isEmpty
-     ∨ 15 < ip.length + fp.length ∨ 2 < ed.length then none
+  if (intPart s).isEmpty ∨ (hasDot s ∧ (fracPart s).isEmpty) ∨ (hasExp s ∧ (expPart s).isEmpty) ∨ !(afterExp s).isEmpty
+     ∨ 15 < (intPart s).length + (fracPart s).length ∨ 2 < (expPart s).length then none
   else
-    let e : Int := if eneg then -(natOf ed : Int) else (natOf ed : Int)
-    let v := ((natOf (ip ++ fp) : Nat) : Rat) * pow10 (e - fp.length)
-    some (if neg then -v else v)
+    let e : Int := if hasExp s ∧ expNeg s then -(natOf (expPart s) : Int) else (natOf (expPart s) : Int)
+    let v := ((natOf (intPart s ++ fracPart s) : Nat) : Rat) * pow10 (e - (fracPart s).length)
+    some (if s.head? = some '-' then -v else v)
 
 def strictCount (s : List Char) : Option Nat :=
   if s.isEmpty ∨ 9 < s.length ∨ !s.all isDig ∨ (1 < s.length ∧ s.head? = some '0') then none
@@ -125,12 +129,16 @@ def recognise (s : List Char) : Option Desc :=
       | _, _, _, _ => none
     | _, _ => none
 
+/-- the smallest positive normal `double` (`DBL_MIN`): base and factor below it are refused (iterator_factor.c) -/
+def dblMinS : Rat := 1 / ((2 ^ 1022 : Nat) : Rat)
+
 /-- the sequence a recognised description denotes; `none` where the documentation leaves the meaning open
-    (zero steps, empty or descending ranges, steps finer than 1/100000 of the range, non-positive factors) -/
+    (zero steps, empty or descending ranges, steps finer than 1/100000 of the range, base or factor below `DBL_MIN`) -/
 def Desc.den : Desc → Option Den
   | .lin n a b => if 1 ≤ n ∧ n < 4294967295 then some (IterSpec.linear n a b) else none
   | .range a b s => if a < b ∧ 0 < s ∧ s ≤ b - a ∧ (b - a) / 100000 ≤ s then some (IterSpec.range a b s) else none
-  | .fac n base f init => if 0 < base ∧ 0 < f ∧ n < 4294967295 then some (IterSpec.factor n base f init) else none
+  | .fac n base f init =>
+    if dblMinS ≤ base ∧ dblMinS ≤ f ∧ n < 4294967295 then some (IterSpec.factor n base f init) else none
   | .values vs => some (explicit vs)
 
 /-- texts that are malformed under every reading: an unknown keyword, a keyword without an opening or a
